@@ -11,9 +11,11 @@ def run():
     common.build_harness()
     # every module parses
     bad = 0
+    tmp = os.path.join(common.workdir("setup_sany"), "tmp")
+    os.makedirs(tmp, exist_ok=True)
     for tla in sorted(glob.glob(os.path.join(common.SPEC, "*.tla"))):
         # (HashTableInd extends the Apalache module, which lives in apalache.jar)
-        r = subprocess.run(["java", "-cp", common.JARS + ":/opt/veriftools/apalache/lib/apalache.jar", "tla2sany.SANY", tla], cwd=common.SPEC,
+        r = subprocess.run(["java", "-Djava.io.tmpdir=" + tmp, "-cp", common.JARS + ":/opt/veriftools/apalache/lib/apalache.jar", "tla2sany.SANY", tla], cwd=common.SPEC,
                            stdout=subprocess.PIPE, stderr=subprocess.STDOUT, text=True)
         if r.returncode != 0 or "*** Errors" in r.stdout or "Fatal" in r.stdout:
             print("SANY failed on " + tla)
